@@ -18,12 +18,12 @@ Import ListNotations.
    succeeds in both and returns the same list — the instance the type declares for each class.  No hypothesis
    left: NoDup / bound of the wiring are computed facts about the source *)
 Theorem cache_on_off_agree_for_the_generated_wiring :
-  forall (cn : Dispatch.cls -> String.string) (D : list (String.string * Dispatch.inst))
+  forall (cn : Dispatch.cls -> String.string) (sn rr : bool) (D : list (String.string * Dispatch.inst))
          (h : list (Dispatch.kind * Dispatch.cls)),
   exists Ton Toff,
-    Dispatch.run_history cn cfg_cache_wiring (Dispatch.cold_type cello_cache_num D) h
+    Dispatch.run_history cn cfg_cache_wiring sn rr (Dispatch.cold_type cello_cache_num D) h
       = Some (Ton, map (fun kc => DispatchProofs.dspec cn D (snd kc)) h) /\
-    Dispatch.run_history cn [] (Dispatch.cold_type 0 D) h
+    Dispatch.run_history cn [] sn rr (Dispatch.cold_type 0 D) h
       = Some (Toff, map (fun kc => DispatchProofs.dspec cn D (snd kc)) h).
 Proof. exact ConfigGlue.cache_on_off_agree_for_the_generated_wiring. Qed.
 Print Assumptions cache_on_off_agree_for_the_generated_wiring.
@@ -42,9 +42,9 @@ Print Assumptions c08_invariant_gives_sound_caches.
 (* G3 (C08). Hence after ANY history of lookups run by C08's model from the cold type a declaration builds, the
    cache words satisfy the soundness hypothesis, and the results are what a plain scan returns *)
 Theorem sound_caches_after_every_lookup_history :
-  forall (cn : Dispatch.cls -> String.string) (dl : list (Dispatch.cls * Dispatch.inst)) (h : list (Dispatch.kind * Dispatch.cls)),
+  forall (cn : Dispatch.cls -> String.string) (sn rr : bool) (dl : list (Dispatch.cls * Dispatch.inst)) (h : list (Dispatch.kind * Dispatch.cls)),
   (forall c c', In c' (map fst dl) -> cn c' = cn c -> c' = c) ->
-  exists T' r, Dispatch.run_history cn cfg_cache_wiring (Dispatch.type_of_decl cn cello_cache_num dl) h = Some (T', r) /\
+  exists T' r, Dispatch.run_history cn cfg_cache_wiring sn rr (Dispatch.type_of_decl cn cello_cache_num dl) h = Some (T', r) /\
                cache_ok (mkTy (Dispatch.cache T') dl) /\
                r = map (fun kc => scan dl (snd kc)) h.
 Proof. exact ConfigGlue.sound_caches_after_every_lookup_history. Qed.
